@@ -853,6 +853,33 @@ fn case(out: &mut Out, kind: &str, inp: &Input) {
                 if terminator.is_some() { "followed by a trailers frame" } else { "at the end of the body" }
             ));
         }
+        // size limit: the first frame whose declared length exceeds L (legal flag, everything
+        // before it a message) is refused with OUT_OF_RANGE; a length <= L is never refused so
+        {
+            let legal = |fl: u8| fl == 0 || (fl == 1 && inp.enc.is_some());
+            let first_bad = frames_pre.iter().position(|f| frame_value(f).is_none());
+            // (index of the frame, its flag, its declared length) of the first frame that can fail
+            let cand: Option<(usize, u8, usize)> = match first_bad {
+                Some(i) => Some((i, frames_pre[i].0, frames_pre[i].1.len())),
+                None if leftover_pre >= 5 => {
+                    let h = &pre_data[pre_data.len() - leftover_pre..];
+                    Some((frames_pre.len(), h[0], u32::from_be_bytes([h[1], h[2], h[3], h[4]]) as usize))
+                }
+                None => None,
+            };
+            let first_code = ran.t1.iter().find_map(|r| if let R::Err(c) = r { Some(*c) } else { None });
+            if let Some((i, fl, len)) = cand {
+                if legal(fl) && len > lim {
+                    if first_code != Some(11) || t1_oks != i {
+                        fail(format!("frame {} declares {} bytes > limit {}: expected {} messages then OUT_OF_RANGE, got {} messages then {:?}", i, len, lim, i, t1_oks, first_code));
+                    }
+                } else if legal(fl) && first_code == Some(11) {
+                    fail(format!("frame {} declares {} bytes <= limit {} but the stream failed with OUT_OF_RANGE", i, len, lim));
+                }
+            } else if first_code == Some(11) && !matches!(terminator, Some(E::Err(11))) {
+                fail(format!("OUT_OF_RANGE although no frame exceeds the limit {}", lim));
+            }
+        }
         // a body error is reported (except CANCELLED on the request side, which ends the stream)
         if let Some(E::Err(c)) = terminator {
             if !(inp.dir == Dir::Request && *c == 1) && !t1_err {
@@ -884,6 +911,7 @@ fn case(out: &mut Out, kind: &str, inp: &Input) {
         None => "default (4 MiB)".to_string(),
         Some(m) if [0usize, 1, 5, 100].contains(&m) => m.to_string(),
         Some(usize::MAX) => "usize::MAX".to_string(),
+        Some(m) if m >= u32::MAX as usize - 2 => "around / above 2^32".to_string(),
         Some(_) => "tight (largest message + 0..100)".to_string(),
     });
     let outcome = if ran.panic.is_some() { "panic" } else if !ran.drained { "hang" } else if t1_err {
@@ -1477,6 +1505,44 @@ fn main() {
                     let inp = Input { codec: Codec::Raw, dir, enc: None, max: *l, buffer_size: 8192, evs, expect: if ok { Some(msgs) } else { None } };
                     case(&mut out, "limit", &inp);
                 }
+            }
+        }
+    }
+
+    // ---------------- limits at and above 2^32 (usize is wider than the u32 length field) ----
+    {
+        let big: [usize; 7] = [u32::MAX as usize, 1 << 32, (1 << 32) + 16, (1 << 33) + 5, 1 << 63, usize::MAX - 1, usize::MAX];
+        for (k, l) in big.iter().enumerate() {
+            // every message length is below such a limit: all delivered
+            let msgs: Vec<Vec<u8>> = [0usize, 1, 16, 17].iter().map(|n| vec![b'm'; *n]).collect();
+            let mut wire = vec![];
+            for m in &msgs {
+                wire.extend(frame(0, m));
+            }
+            for dir in [Dir::Request, Dir::Response(200)] {
+                let cuts = if k % 2 == 0 { vec![] } else { random_cuts(&mut r, wire.len()) };
+                let evs: Vec<E> = cut_at(&wire, &cuts).into_iter().map(E::Data).collect();
+                case(&mut out, "limit.above-u32", &Input { codec: Codec::Raw, dir, enc: None, max: Some(*l), buffer_size: 8192, evs, expect: Some(msgs.clone()) });
+            }
+            // one message, then a declared length just inside the u32 range and nothing after it:
+            // refused (OUT_OF_RANGE) only when it really exceeds the limit
+            for declared in [u32::MAX - 1, u32::MAX] {
+                if (declared as usize) <= *l && k != 0 {
+                    continue; // accepted lengths of 4 GiB would be reserved for real: one limit is enough
+                }
+                let mut w = frame(0, b"ok");
+                w.push(0);
+                w.extend_from_slice(&declared.to_be_bytes());
+                case(&mut out, "limit.above-u32", &Input { codec: Codec::Raw, dir: Dir::Request, enc: None, max: Some(*l), buffer_size: 8192, evs: vec![E::Data(w)], expect: None });
+            }
+        }
+        // the same declared lengths against limits just below them
+        for l in [u32::MAX as usize - 2, u32::MAX as usize - 1] {
+            for declared in [u32::MAX - 1, u32::MAX] {
+                let mut w = frame(0, b"ok");
+                w.push(0);
+                w.extend_from_slice(&declared.to_be_bytes());
+                case(&mut out, "limit.above-u32", &Input { codec: Codec::Raw, dir: Dir::Response(200), enc: None, max: Some(l), buffer_size: 8192, evs: vec![E::Data(w)], expect: None });
             }
         }
     }
